@@ -1,8 +1,8 @@
 package eventbus
 
 import (
-	"math"
 	"context"
+	"math"
 	"sync"
 	"time"
 )
@@ -84,8 +84,8 @@ func harnessC20BusLevel() {
 	}
 	hs := make([]hd, n)
 	var mu sync.Mutex
-	runs := 0        // handler bodies executed
-	panicked := 0    // of which panicked
+	runs := 0     // handler bodies executed
+	panicked := 0 // of which panicked
 	asyncRuns := 0
 	var seenParent []int // span id seen by context-aware handler bodies
 	for i := 0; i < n; i++ {
